@@ -360,3 +360,37 @@ func verifC05Alias(tlen int) {
 
 func VerifC05_Alias1() { verifC05Alias(1) }
 func VerifC05_Alias2() { verifC05Alias(2) }
+
+// verifC05Recycle: datagram A is parsed and folded into a map (its metrics go back to the pool),
+// then datagram B is parsed by the same parser with the same pool (maximal reuse: the pooled
+// metric of A is handed out again). What B yields must equal what B yields when parsed by a
+// fresh parser with a fresh pool: nothing of A - source, tags, name, value - may leak into B.
+func verifC05Recycle(na, nb int) {
+	la, lb := verifLineOf(na), verifLineOf(nb)
+	ignoreHost := nondetBool()
+	nowCell := int64(1700000000000000000)
+	verifSetNow(&nowCell)
+	mp := pool.NewMetricPool(0)
+	rec := &verifRecorder{}
+	dp := verifNewParser("", ignoreHost, rec, mp)
+	l := &lexer.Lexer{MetricPool: mp}
+	ms, _, _ := dp.handleDatagram(context.Background(), l, 5, "9.9.9.9", verifCopyBytes(la))
+	mm := gostatsd.NewMetricMap(false)
+	for _, m := range ms {
+		mm.Receive(m) // releases the metric to the pool
+	}
+	got, ne, nbad := dp.handleDatagram(context.Background(), l, 6, "8.8.8.8", verifCopyBytes(lb))
+	alone := verifParse(verifCopyBytes(lb), "", ignoreHost, 6, "8.8.8.8")
+	verifAssert(nbad == alone.nBad && ne == alone.nEvents, "recycle: counts of a datagram do not depend on what was parsed before")
+	verifAssert(len(got) == len(alone.metrics), "recycle: number of metrics of a datagram does not depend on what was parsed before")
+	for i := range got {
+		if i < len(alone.metrics) {
+			verifSameMetric(got[i], alone.metrics[i], "a metric parsed into a recycled pool object vs parsed alone")
+			verifReach("recycled")
+		}
+	}
+}
+
+func VerifC05_Recycle_H_MT() { verifC05Recycle(-4, -2) }
+func VerifC05_Recycle_H_S()  { verifC05Recycle(-4, -1) }
+func VerifC05_Recycle_MT_S() { verifC05Recycle(-2, -1) }
